@@ -207,6 +207,8 @@ type e3State struct {
 	changes       []string // file operations since the last plain invocation
 	statusOK      bool
 	steps         []e3Step
+	goodSet       bool
+	goodF         string            // fingerprint at the most recent successful (or legitimately skipped) plain invocation
 	lastByF       map[string]string // fingerprint -> outcome of the most recent attempt observed for it
 	lastEdit      [3]string         // file, content before, content after the last edit
 	ownState      map[string]bool   // state files under .task written by plain runs of the task under test
@@ -491,6 +493,21 @@ func (st *e3State) step(op e3Op, rng *rand.Rand, part *h.Partial) []e3Verdict {
 		delete(st.files, f)
 		rec.Op = "rename " + f + " -> " + t
 		fileOp("rename")
+	case "free-move-target":
+		// make sure a cross-directory move keeping the base name is possible: free one target
+		g := e3Globs[sh.Glob]
+		for _, x := range st.matchedFiles() {
+			for _, y := range g.pool {
+				if _, ok := st.files[y]; ok && y != x && g.matched(y) && filepath.Base(x) == filepath.Base(y) && filepath.Dir(x) != filepath.Dir(y) {
+					os.Remove(filepath.Join(st.dir, y))
+					delete(st.files, y)
+					rec.Op = "free-move-target (removed " + y + ")"
+					fileOp("remove")
+					return nil
+				}
+			}
+		}
+		rec.Op = "free-move-target(nothing to do)"
 	case "move":
 		// move a matched file to another matched directory keeping its base name, content and mtime
 		g := e3Globs[sh.Glob]
@@ -676,7 +693,13 @@ func (st *e3State) step(op e3Op, rng *rand.Rand, part *h.Partial) []e3Verdict {
 		fNow := st.fingerprint()
 		genOK := !sh.Gen || st.genExists()
 		statusOK := !sh.Status || st.statusOK
+		// mustSkip (C05, idempotence): the immediately preceding plain invocation succeeded or was itself a
+		// legitimate skip, and nothing relevant changed since.
 		expectSkip := st.prevSet && (st.prevOut == "success" || st.prevOut == "skipped") && st.prevF == fNow && genOK && statusOK && !inv.force
+		// maySkip (C04 + C05 completeness): the present fingerprint is the one of the last run that Task could
+		// record as good, and the most recent attempt for it succeeded. (Example: success at A, an attempt at B
+		// is killed, the files return to A: skipping is legitimate although the previous invocation was killed.)
+		maySkip := expectSkip || (st.goodSet && st.goodF == fNow && st.lastByF[fNow] == "success" && genOK && statusOK && !inv.force)
 		// After a process that was killed when all commands had completed, but before it exited, both
 		// running again and skipping are acceptable for the same fingerprint (the property only forbids
 		// a skip after an attempt that did not run all commands, and only demands a skip after a
@@ -754,17 +777,17 @@ func (st *e3State) step(op e3Op, rng *rand.Rand, part *h.Partial) []e3Verdict {
 			if observed == "skipped" {
 				observed = "killed-complete"
 			}
-		case observed == "skipped" && !expectSkip && st.reportedSkipF == fNow && !inv.force:
+		case observed == "skipped" && !maySkip && st.reportedSkipF == fNow && !inv.force:
 			// the same illegitimate skip as already reported in this history (nothing changed since)
 			part.Count("repeated_illegitimate_skips_not_re-reported", 1)
-		case observed == "skipped" && !expectSkip:
+		case observed == "skipped" && !maySkip:
 			st.reportedSkipF = fNow
 			// the task was skipped although the monitor's record demands a run
 			prev := st.prevOut
 			if !st.prevSet {
 				prev = "never-run"
 			}
-			changed := st.prevSet && st.prevF != fNow
+			changed := st.goodSet && st.goodF != fNow
 			switch {
 			case inv.force:
 				out = append(out, e3Verdict{fmt.Sprintf("C05 | %s | force | skipped", sh.Method), "--force did not run the task", []string{"C05"}})
@@ -829,7 +852,7 @@ func (st *e3State) step(op e3Op, rng *rand.Rand, part *h.Partial) []e3Verdict {
 			st.since = append(st.since, "killed-before-attempt")
 			return out
 		}
-		if observed == "skipped" && !expectSkip {
+		if observed == "skipped" && !maySkip {
 			// an illegitimate skip does not create a success record
 			observed = st.prevOut
 			if !st.prevSet {
@@ -837,7 +860,14 @@ func (st *e3State) step(op e3Op, rng *rand.Rand, part *h.Partial) []e3Verdict {
 			}
 		}
 		st.prevSet, st.prevF, st.prevOut = true, st.fingerprint(), observed
-		st.prevView = st.view()
+		if observed == "success" || observed == "skipped" {
+			// the state Task could record as good (net changes are classified against it)
+			st.goodSet, st.goodF = true, st.prevF
+			st.prevView = st.view()
+		}
+		if !st.goodSet && st.prevView == nil {
+			st.prevView = map[string]string{}
+		}
 		if st.lastByF == nil {
 			st.lastByF = map[string]string{}
 		}
@@ -1135,6 +1165,9 @@ func runE3(id string, start time.Time) int {
 						s := e3Shape{Method: method, Glob: g, Shape: "plain", NCmds: 2, Gen: extra.gen, Status: extra.status}
 						s.fixNames()
 						ops := []e3Op{{Kind: "run"}, {Kind: "run"}}
+						if change == "move" {
+							ops = []e3Op{{Kind: "free-move-target"}, {Kind: "run"}, {Kind: "run"}}
+						}
 						if change != "none" {
 							ops = append(ops, e3Op{Kind: change})
 						}
